@@ -95,15 +95,15 @@ fn exercise<T: Elem + Clone + Ord>(ctx: &mut Ctx, opn: &str, what: &str, mut a: 
 
 /// An operation under fault injection: `run` performs it on a fresh array and returns the survivor
 /// (None if the operation consumes / does not produce an array) plus ids the caller holds.
-struct FaultOp<'a> {
+struct FaultOp<'a, T> {
     opn: &'static str,
     desc: String,
-    run: &'a dyn Fn(&mut Ctx) -> (Option<TooDee<Tok>>, Vec<Tok>),
+    run: &'a dyn Fn(&mut Ctx) -> (Option<TooDee<T>>, Vec<T>),
     kinds: &'a [Kind],
 }
 
 /// Enumerate crash points of one operation: fault-free run to count calls, then every (kind, k).
-fn enumerate_faults(ctx: &mut Ctx, fo: &FaultOp<'_>) {
+fn enumerate_faults<T: Elem + Clone + Ord>(ctx: &mut Ctx, fo: &FaultOp<'_, T>) {
     // fault-free run
     ledger_reset();
     fault_reset();
@@ -138,9 +138,11 @@ fn enumerate_faults(ctx: &mut Ctx, fo: &FaultOp<'_>) {
                 ctx.count("faults_not_reached", 1);
             }
             let held_ids: HashSet<u64> = held.iter().map(|t| t.uid()).collect();
-            for h in &held {
-                if !is_live(h.uid()) {
-                    ctx.violation(fo.opn, "ledger:held-not-live", format!("{}: id {}", what, h.uid()));
+            if T::OWNS && !T::IS_ZST {
+                for h in &held {
+                    if !is_live(h.uid()) {
+                        ctx.violation(fo.opn, "ledger:held-not-live", format!("{}: id {}", what, h.uid()));
+                    }
                 }
             }
             match surv {
@@ -169,11 +171,11 @@ fn enumerate_faults(ctx: &mut Ctx, fo: &FaultOp<'_>) {
     ledger_counts(ctx);
 }
 
-fn toks(n: usize, key: u32) -> Vec<Tok> {
-    (0..n).map(|i| Tok::fresh(key + (i % 3) as u32)).collect()
+fn toks<T: Elem>(n: usize, key: u32) -> Vec<T> {
+    (0..n).map(|i| T::fresh(key + (i % 3) as u32)).collect()
 }
 
-fn insert_with(a: &mut TooDee<Tok>, axis: Axis, push: bool, idx: usize, it: Sup<Tok>) {
+fn insert_with<T>(a: &mut TooDee<T>, axis: Axis, push: bool, idx: usize, it: Sup<T>) {
     match (axis, push) {
         (Axis::Row, false) => a.insert_row(idx, it),
         (Axis::Row, true) => a.push_row(it),
@@ -182,13 +184,14 @@ fn insert_with(a: &mut TooDee<Tok>, axis: Axis, push: bool, idx: usize, it: Sup<
     }
 }
 
-fn c11_insert(ctx: &mut Ctx, shape: (usize, usize), axis: Axis) {
+fn c11_insert<T: Elem + Clone + Ord + Default>(ctx: &mut Ctx, shape: (usize, usize), axis: Axis, big: bool) {
     let (c, r) = shape;
     let dim = if axis == Axis::Row { r } else { c };
     let line = if axis == Axis::Row { c } else { r };
     let lens: Vec<usize> = if c == 0 { vec![0, 1, 3] } else { vec![line] };
     let kinds = [Kind::IntoIter, Kind::Len, Kind::Next, Kind::NextBack, Kind::IterDrop];
-    for idx in 0..=dim {
+    let idxs: Vec<usize> = if big { vec![0, dim / 2, dim] } else { (0..=dim).collect() };
+    for idx in idxs {
         for push in [false, true] {
             if push && idx != dim {
                 continue;
@@ -196,9 +199,9 @@ fn c11_insert(ctx: &mut Ctx, shape: (usize, usize), axis: Axis) {
             for &len in &lens {
                 // honest iterator, k-th callback panics
                 let run = |_ctx: &mut Ctx| {
-                    let (mut a, _g) = build::<Tok>(c, r, &key_of);
+                    let (mut a, _g) = build::<T>(c, r, &key_of);
                     a.reserve(if (idx + len) % 2 == 0 { 0 } else { len });
-                    let items = toks(len, 30);
+                    let items = toks::<T>(len, 30);
                     let _ = guarded(|| insert_with(&mut a, axis, push, idx, Sup(SupIter::new(items, LenLie::Honest, true))));
                     (Some(a), vec![])
                 };
@@ -208,17 +211,20 @@ fn c11_insert(ctx: &mut Ctx, shape: (usize, usize), axis: Axis) {
                     (Axis::Col, false) => "insert_col",
                     (Axis::Col, true) => "push_col",
                 };
-                enumerate_faults(ctx, &FaultOp { opn, desc: format!("{}(idx={}, len={}) on {}x{}", opn, idx, len, c, r), run: &run, kinds: &kinds });
+                enumerate_faults(ctx, &FaultOp { opn, desc: format!("{}(idx={}, len={}) on {}x{} {}", opn, idx, len, c, r, T::NAME), run: &run, kinds: &kinds });
                 // lying iterators (no injected panic needed; combined with injected ones as well)
                 for lie in [LenLie::Plus(1), LenLie::Plus(3), LenLie::Minus(1), LenLie::Fixed(0), LenLie::Fixed(usize::MAX), LenLie::Fixed(usize::MAX / 2 + 1), LenLie::Flicker] {
+                    if big && !matches!(lie, LenLie::Plus(1) | LenLie::Minus(1)) {
+                        continue;
+                    }
                     let real_len = if c == 0 { len.max(1) } else { line };
                     let run = |_ctx: &mut Ctx| {
-                        let (mut a, _g) = build::<Tok>(c, r, &key_of);
-                        let items = toks(real_len, 30);
+                        let (mut a, _g) = build::<T>(c, r, &key_of);
+                        let items = toks::<T>(real_len, 30);
                         let _ = guarded(|| insert_with(&mut a, axis, push, idx, Sup(SupIter::new(items, lie, true))));
                         (Some(a), vec![])
                     };
-                    enumerate_faults(ctx, &FaultOp { opn, desc: format!("{}(idx={}, real len={}, len() lies {:?}) on {}x{}", opn, idx, real_len, lie, c, r), run: &run, kinds: &[Kind::Next, Kind::NextBack] });
+                    enumerate_faults(ctx, &FaultOp { opn, desc: format!("{}(idx={}, real len={}, len() lies {:?}) on {}x{} {}", opn, idx, real_len, lie, c, r, T::NAME), run: &run, kinds: &[Kind::Next, Kind::NextBack] });
                     ctx.count("lying_iterators", 1);
                 }
             }
@@ -226,23 +232,23 @@ fn c11_insert(ctx: &mut Ctx, shape: (usize, usize), axis: Axis) {
     }
 }
 
-fn c11_clone_family(ctx: &mut Ctx, shape: (usize, usize)) {
+fn c11_clone_family<T: Elem + Clone + Ord + Default>(ctx: &mut Ctx, shape: (usize, usize)) {
     let (c, r) = shape;
     // constructors
     let run = |_ctx: &mut Ctx| {
-        let x = guarded(|| TooDee::<Tok>::new(c, r));
+        let x = guarded(|| TooDee::<T>::new(c, r));
         (x.ok(), vec![])
     };
     enumerate_faults(ctx, &FaultOp { opn: "new", desc: format!("new({},{})", c, r), run: &run, kinds: &[Kind::Default] });
     let run = |_ctx: &mut Ctx| {
-        let seed = Tok::fresh(5);
+        let seed = T::fresh(5);
         let x = guarded(move || TooDee::init(c, r, seed));
         (x.ok(), vec![])
     };
     enumerate_faults(ctx, &FaultOp { opn: "init", desc: format!("init({},{})", c, r), run: &run, kinds: &[Kind::Clone, Kind::Drop] });
     // clone: both the source and (if it exists) the clone must be fine; survivor = source
     let run = |ctx: &mut Ctx| {
-        let (a, _g) = build::<Tok>(c, r, &key_of);
+        let (a, _g) = build::<T>(c, r, &key_of);
         let x = guarded(|| a.clone());
         if let Ok(b) = x {
             if validate(ctx, "clone", "the clone", &b, &HashSet::new()) {
@@ -252,25 +258,39 @@ fn c11_clone_family(ctx: &mut Ctx, shape: (usize, usize)) {
         (Some(a), vec![])
     };
     enumerate_faults(ctx, &FaultOp { opn: "clone", desc: format!("clone() of {}x{}", c, r), run: &run, kinds: &[Kind::Clone] });
+    // Clone::clone_from into destinations that are smaller, equal and larger than the source
+    for (dc, dr) in [(0usize, 0usize), (1, 1), (c, r), (c + 1, r), (r.max(1), c.max(1)), (c + 1, r + 2)] {
+        let run = |_ctx: &mut Ctx| {
+            let (src, _g) = build::<T>(c, r, &key_of);
+            let (mut dst, _g2) = build::<T>(dc, dr, &key_of);
+            if (dc + dr) % 2 == 1 {
+                dst.reserve(c * r + 3);
+            }
+            let _ = guarded(|| dst.clone_from(&src));
+            drop(src);
+            (Some(dst), vec![])
+        };
+        enumerate_faults(ctx, &FaultOp { opn: "clone_from", desc: format!("clone_from({}x{}) into {}x{} {}", c, r, dc, dr, T::NAME), run: &run, kinds: &[Kind::Clone, Kind::Drop] });
+    }
     // fill on owned, overwriting elements whose Drop may panic
     let run = |_ctx: &mut Ctx| {
-        let (mut a, _g) = build::<Tok>(c, r, &key_of);
-        let v = Tok::fresh(9);
+        let (mut a, _g) = build::<T>(c, r, &key_of);
+        let v = T::fresh(9);
         let _ = guarded(|| a.fill(v));
         (Some(a), vec![])
     };
     enumerate_faults(ctx, &FaultOp { opn: "fill", desc: format!("fill on owned {}x{}", c, r), run: &run, kinds: &[Kind::Clone, Kind::Drop] });
     // clone_from_slice / clone_from_toodee on owned
     let run = |_ctx: &mut Ctx| {
-        let (mut a, _g) = build::<Tok>(c, r, &key_of);
-        let src = toks(c * r, 40);
+        let (mut a, _g) = build::<T>(c, r, &key_of);
+        let src = toks::<T>(c * r, 40);
         let _ = guarded(|| a.clone_from_slice(&src));
         (Some(a), vec![])
     };
     enumerate_faults(ctx, &FaultOp { opn: "clone_from_slice", desc: format!("clone_from_slice on owned {}x{}", c, r), run: &run, kinds: &[Kind::Clone, Kind::Drop] });
     let run = |_ctx: &mut Ctx| {
-        let (mut a, _g) = build::<Tok>(c, r, &key_of);
-        let (src, _) = build::<Tok>(c, r, &key_of);
+        let (mut a, _g) = build::<T>(c, r, &key_of);
+        let (src, _) = build::<T>(c, r, &key_of);
         let _ = guarded(|| a.clone_from_toodee(&src));
         (Some(a), vec![])
     };
@@ -280,19 +300,19 @@ fn c11_clone_family(ctx: &mut Ctx, shape: (usize, usize)) {
     for which in 0..4 {
         let opn = ["fill", "clone_from_slice", "clone_from_toodee", "From<TooDeeView>"][which];
         let run = |ctx: &mut Ctx| {
-            let (mut p, _g) = build::<Tok>(pc, pr, &key_of);
+            let (mut p, _g) = build::<T>(pc, pr, &key_of);
             let win = ((1, 0), (1 + c, r));
             match which {
                 0 => {
-                    let v = Tok::fresh(9);
+                    let v = T::fresh(9);
                     let _ = guarded(|| p.view_mut(win.0, win.1).fill(v));
                 }
                 1 => {
-                    let src = toks(c * r, 40);
+                    let src = toks::<T>(c * r, 40);
                     let _ = guarded(|| p.view_mut(win.0, win.1).clone_from_slice(&src));
                 }
                 2 => {
-                    let (src, _) = build::<Tok>(c + 1, r + 1, &key_of);
+                    let (src, _) = build::<T>(c + 1, r + 1, &key_of);
                     let sv = src.view((1, 1), (1 + c, 1 + r));
                     let _ = guarded(|| p.view_mut(win.0, win.1).clone_from_toodee(&sv));
                 }
@@ -311,28 +331,29 @@ fn c11_clone_family(ctx: &mut Ctx, shape: (usize, usize)) {
     }
     // clear / drop with a panicking element Drop
     let run = |_ctx: &mut Ctx| {
-        let (mut a, _g) = build::<Tok>(c, r, &key_of);
+        let (mut a, _g) = build::<T>(c, r, &key_of);
         let _ = guarded(|| a.clear());
         (Some(a), vec![])
     };
     enumerate_faults(ctx, &FaultOp { opn: "clear", desc: format!("clear on {}x{}", c, r), run: &run, kinds: &[Kind::Drop] });
     let run = |_ctx: &mut Ctx| {
-        let (a, _g) = build::<Tok>(c, r, &key_of);
+        let (a, _g) = build::<T>(c, r, &key_of);
         let _ = guarded(move || drop(a));
         (None, vec![])
     };
-    enumerate_faults(ctx, &FaultOp { opn: "drop", desc: format!("drop of {}x{}", c, r), run: &run, kinds: &[Kind::Drop] });
+    enumerate_faults(ctx, &FaultOp::<T> { opn: "drop", desc: format!("drop of {}x{}", c, r), run: &run, kinds: &[Kind::Drop] });
 }
 
-fn c11_drains(ctx: &mut Ctx, shape: (usize, usize), axis: Axis) {
+fn c11_drains<T: Elem + Clone + Ord + Default>(ctx: &mut Ctx, shape: (usize, usize), axis: Axis, big: bool) {
     let (c, r) = shape;
     let dim = if axis == Axis::Row { r } else { c };
     let line = if axis == Axis::Row { c } else { r };
-    for idx in 0..dim {
+    let idxs: Vec<usize> = if big && dim > 3 { vec![0, dim / 2, dim - 1] } else { (0..dim).collect() };
+    for idx in idxs {
         for front in 0..=line.min(2) {
             for back in 0..=(line - front).min(2) {
                 let run = |_ctx: &mut Ctx| {
-                    let (mut a, _g) = build::<Tok>(c, r, &key_of);
+                    let (mut a, _g) = build::<T>(c, r, &key_of);
                     let mut held = vec![];
                     let h = &mut held;
                     let _ = guarded(|| {
@@ -363,7 +384,7 @@ fn c11_drains(ctx: &mut Ctx, shape: (usize, usize), axis: Axis) {
     }
 }
 
-fn c11_sorts(ctx: &mut Ctx, shape: (usize, usize)) {
+fn c11_sorts<T: Elem + Clone + Ord + Default>(ctx: &mut Ctx, shape: (usize, usize)) {
     let (c, r) = shape;
     if c == 0 {
         return;
@@ -377,14 +398,14 @@ fn c11_sorts(ctx: &mut Ctx, shape: (usize, usize)) {
                 for on_view in [false, true] {
                     let run = |_ctx: &mut Ctx| {
                         if on_view {
-                            let (mut p, _g) = build::<Tok>(c + 2, r + 2, &key_of);
+                            let (mut p, _g) = build::<T>(c + 2, r + 2, &key_of);
                             let _ = guarded(|| {
                                 let mut v = p.view_mut((1, 1), (1 + c, 1 + r));
                                 apply_real(&mut v, &op, &mut VecDeque::new());
                             });
                             (Some(p), vec![])
                         } else {
-                            let (mut a, _g) = build::<Tok>(c, r, &key_of);
+                            let (mut a, _g) = build::<T>(c, r, &key_of);
                             let _ = guarded(|| {
                                 apply_real(&mut a, &op, &mut VecDeque::new());
                             });
@@ -402,24 +423,65 @@ pub fn run_c11(ctx: &mut Ctx) {
     let n = nsel(ctx, 2, 2, 3, 4, 5);
     for shape in shapes(n) {
         for axis in [Axis::Row, Axis::Col] {
-            if ctx.case(|| format!("C11 insert axis={:?} shape={}x{}", axis, shape.0, shape.1)) {
-                c11_insert(ctx, shape, axis);
+            for ty in 0..3 {
+                // iterator faults do not depend on element callbacks: run them for all three element kinds
+                if ctx.case(|| format!("C11 insert axis={:?} shape={}x{} elem={}", axis, shape.0, shape.1, ["Tok", "Kv", "Zst"][ty])) {
+                    match ty {
+                        0 => c11_insert::<Tok>(ctx, shape, axis, false),
+                        1 => c11_insert::<Kv>(ctx, shape, axis, false),
+                        _ => c11_insert::<Zst>(ctx, shape, axis, false),
+                    }
+                }
             }
-            if ctx.case(|| format!("C11 drains axis={:?} shape={}x{}", axis, shape.0, shape.1)) {
-                c11_drains(ctx, shape, axis);
+            if ctx.case(|| format!("C11 drains axis={:?} shape={}x{} elem=Tok", axis, shape.0, shape.1)) {
+                c11_drains::<Tok>(ctx, shape, axis, false);
+            }
+            if ctx.case(|| format!("C11 drains axis={:?} shape={}x{} elem=Zst", axis, shape.0, shape.1)) {
+                c11_drains::<Zst>(ctx, shape, axis, false);
             }
             if ctx.done() {
                 return;
             }
         }
-        if ctx.case(|| format!("C11 clone-family shape={}x{}", shape.0, shape.1)) {
-            c11_clone_family(ctx, shape);
+        if ctx.case(|| format!("C11 clone-family shape={}x{} elem=Tok", shape.0, shape.1)) {
+            c11_clone_family::<Tok>(ctx, shape);
         }
-        if ctx.case(|| format!("C11 sorts shape={}x{}", shape.0, shape.1)) {
-            c11_sorts(ctx, shape);
+        if ctx.case(|| format!("C11 clone-family shape={}x{} elem=Zst", shape.0, shape.1)) {
+            c11_clone_family::<Zst>(ctx, shape);
+        }
+        if ctx.case(|| format!("C11 sorts shape={}x{} elem=Tok", shape.0, shape.1)) {
+            c11_sorts::<Tok>(ctx, shape);
+        }
+        if ctx.case(|| format!("C11 sorts shape={}x{} elem=Kv", shape.0, shape.1)) {
+            c11_sorts::<Kv>(ctx, shape);
         }
         if ctx.done() {
             return;
+        }
+    }
+    // larger shapes (sampled indices): size-dependent paths under faults
+    let bigs: Vec<(usize, usize)> = match ctx.scale {
+        Scale::Native => vec![(9, 4), (4, 9), (33, 2), (2, 33), (17, 17), (40, 30)],
+        Scale::Vg => vec![(9, 4)],
+        Scale::Miri => vec![],
+    };
+    for shape in bigs {
+        for axis in [Axis::Row, Axis::Col] {
+            for ty in 0..3 {
+                if ctx.case(|| format!("C11 big insert axis={:?} shape={}x{} elem={}", axis, shape.0, shape.1, ["Tok", "Kv", "Zst"][ty])) {
+                    match ty {
+                        0 => c11_insert::<Tok>(ctx, shape, axis, true),
+                        1 => c11_insert::<Kv>(ctx, shape, axis, true),
+                        _ => c11_insert::<Zst>(ctx, shape, axis, true),
+                    }
+                }
+            }
+            if ctx.case(|| format!("C11 big drains axis={:?} shape={}x{} elem=Tok", axis, shape.0, shape.1)) {
+                c11_drains::<Tok>(ctx, shape, axis, true);
+            }
+            if ctx.done() {
+                return;
+            }
         }
     }
 }
@@ -462,9 +524,16 @@ fn take_then_forget<I: DoubleEndedIterator>(mut it: I, front: usize, back: usize
 
 fn c12_case<T: Elem + Clone + Ord>(ctx: &mut Ctx, shape: (usize, usize), lk: Leak) {
     let (c, r) = shape;
+    let sample = |n: usize| -> Vec<usize> {
+        if n > 8 {
+            vec![0, 1, n / 2, n - 1]
+        } else {
+            (0..n).collect()
+        }
+    };
     let idxs: Vec<usize> = match lk {
-        Leak::DrainRow => (0..r).collect(),
-        Leak::DrainCol | Leak::Col | Leak::ColMut => (0..c).collect(),
+        Leak::DrainRow => sample(r),
+        Leak::DrainCol | Leak::Col | Leak::ColMut => sample(c),
         _ => vec![0],
     };
     let n_items = match lk {
@@ -528,6 +597,23 @@ fn c12_case<T: Elem + Clone + Ord>(ctx: &mut Ctx, shape: (usize, usize), lk: Lea
                 let held_ids: HashSet<u64> = held.iter().map(|t| t.uid()).collect();
                 let mut ok = validate(ctx, "leak", &what, &a, &held_ids);
                 if ok && !T::IS_ZST {
+                    // an element handed to the caller must be gone from the array - also for element
+                    // types without drop glue, where the ledger cannot see a duplicated move-only value
+                    let mut seen = HashSet::new();
+                    for e in a.data() {
+                        if held_ids.contains(&e.uid()) {
+                            ctx.violation("leak", "survivor:duplicated-element", format!("{}: id {} was yielded to the caller and is still in the array", what, e.uid()));
+                            ok = false;
+                            break;
+                        }
+                        if !seen.insert(e.uid()) {
+                            ctx.violation("leak", "survivor:duplicated-element", format!("{}: id {} occurs twice in the array", what, e.uid()));
+                            ok = false;
+                            break;
+                        }
+                    }
+                }
+                if ok && !T::IS_ZST {
                     // no element may have appeared from nowhere
                     for e in a.data() {
                         if !before.contains(&e.uid()) {
@@ -582,6 +668,24 @@ pub fn run_c12(ctx: &mut Ctx) {
                 }
                 if ctx.done() {
                     return;
+                }
+            }
+        }
+    }
+    if ctx.scale == Scale::Native {
+        for shape in [(9, 4), (4, 9), (33, 2), (2, 33), (17, 17), (40, 30)] {
+            for lk in LEAKS {
+                for ty in 0..3 {
+                    if ctx.case(|| format!("C12 big leak={:?} shape={}x{} elem={}", lk, shape.0, shape.1, ["Tok", "Zst", "Kv"][ty])) {
+                        match ty {
+                            0 => c12_case::<Tok>(ctx, shape, lk),
+                            1 => c12_case::<Zst>(ctx, shape, lk),
+                            _ => c12_case::<Kv>(ctx, shape, lk),
+                        }
+                    }
+                    if ctx.done() {
+                        return;
+                    }
                 }
             }
         }
